@@ -5,7 +5,7 @@
 //!      | `purge:<id>:<mask>`
 //!      | `at:…` `dt:…` `im:…` `rm:…` (document operations of c04.rs, to set up references)
 //!      | `S`  (print document, key store, key-id store)
-//!   mask = eight characters 0/1: fail every call of JwkStorage::generate, JwkStorage::delete,
+//!   mask = eight characters 0/1 (+ optionally a digit 0..8: the KIND of error the failing calls return): fail every call of JwkStorage::generate, JwkStorage::delete,
 //!          KeyIdStorage::insert_key_id, get_key_id, delete_key_id, JwkStorage::exists, sign, insert during this operation
 //! Keys are numbered in the order of generation; a generated method's key material prints as 1000 + key number, a
 //! fragment taken from the JWK kid as 100 + key number.
@@ -69,11 +69,33 @@ thread_local! {
 struct FK(JwkMemStore);
 struct FI(KeyIdMemstore);
 
+thread_local! {
+  /// which kind of error the failing calls return (ninth character of the mask)
+  static KIND_OF_ERROR: std::cell::Cell<u8> = std::cell::Cell::new(0);
+}
 fn kerr() -> KeyStorageError {
-  KeyStorageError::new(KeyStorageErrorKind::Unavailable)
+  KeyStorageError::new(match KIND_OF_ERROR.with(|k| k.get()) {
+    1 => KeyStorageErrorKind::KeyNotFound,
+    2 => KeyStorageErrorKind::Unauthenticated,
+    3 => KeyStorageErrorKind::Unspecified,
+    4 => KeyStorageErrorKind::RetryableIOFailure,
+    5 => KeyStorageErrorKind::SerializationError,
+    6 => KeyStorageErrorKind::UnsupportedKeyType,
+    7 => KeyStorageErrorKind::KeyAlgorithmMismatch,
+    8 => KeyStorageErrorKind::UnsupportedSignatureAlgorithm,
+    _ => KeyStorageErrorKind::Unavailable,
+  })
 }
 fn ierr() -> KeyIdStorageError {
-  KeyIdStorageError::new(KeyIdStorageErrorKind::Unavailable)
+  KeyIdStorageError::new(match KIND_OF_ERROR.with(|k| k.get()) {
+    1 => KeyIdStorageErrorKind::KeyIdNotFound,
+    2 => KeyIdStorageErrorKind::Unauthenticated,
+    3 => KeyIdStorageErrorKind::Unspecified,
+    4 => KeyIdStorageErrorKind::RetryableIOFailure,
+    5 => KeyIdStorageErrorKind::SerializationError,
+    6 => KeyIdStorageErrorKind::KeyIdAlreadyExists,
+    _ => KeyIdStorageErrorKind::Unavailable,
+  })
 }
 
 #[async_trait(?Send)]
@@ -208,10 +230,17 @@ impl DocLike for IotaDocument {
 }
 
 fn parse_mask(t: &str) -> Option<Plan> {
+  let kind = match t.len() {
+    8 => 0,
+    9 => t[8..].parse::<u8>().ok()?,
+    _ => return None,
+  };
+  let t = &t[..8];
   let b: Vec<bool> = t.chars().map(|c| c == '1').collect();
-  if b.len() != 8 || !t.chars().all(|c| c == '0' || c == '1') {
+  if !t.chars().all(|c| c == '0' || c == '1') {
     return None;
   }
+  KIND_OF_ERROR.with(|k| k.set(kind));
   Some(Plan { generate: b[0], delete_key: b[1], insert_kid: b[2], get_kid: b[3], delete_kid: b[4], exists: b[5], sign: b[6], insert_key: b[7] })
 }
 
@@ -581,6 +610,18 @@ pub fn gen(thorough: bool, seed: u64, out: &mut impl Write) {
         }
       }
     }
+    // (b') every KIND of error for the calls whose failure the operations must undo: generate with a failing insert_key_id,
+    //      purge with failing delete / delete_key_id / get_key_id, one call at a time
+    for ek in 0..9u32 {
+      writeln!(out, "C09 hist {}{} | gen:vm:1:00100000{} S gen:1:2:00100000{} S gen:vm:1:00000000 S", kind, empty, ek, ek).unwrap();
+      for bits in ["01000000", "00001000", "00010000", "01001000"] {
+        writeln!(out, "C09 hist {}{} | gen:vm:1:00000000 gen:2:2:00000000 at:F:0.0.1:0 S purge:0.0.1:{}{} S purge:0.0.2:{}{} S purge:0.0.1:00000000 S", kind, empty, bits, ek, bits, ek).unwrap();
+      }
+    }
+    // (b'') purge with an id that differs from the method's id only in path / query (no such method: nothing may happen)
+    for pid in ["0.1.1", "0.2.1", "0.3.1", "1.0.1", "50.0.1", "10.0.1"] {
+      writeln!(out, "C09 hist {}{} | gen:vm:1:00000000 at:F:0.0.1:0 S purge:{}:00000000 S purge:0.0.1:00000000 S", kind, empty, pid).unwrap();
+    }
     // (c) purge of methods that have no key (start document), undecodable key material, unknown ids
     let odd = spec_line(0, &[(i(0, 0, 1), 0), (i(0, 0, 2), 12)], &[vec![Err(i(0, 0, 1)), Err(i(0, 0, 3))], vec![Ok((i(0, 0, 4), 0))], vec![], vec![], vec![]], &[]);
     for id in ["0.0.1", "0.0.2", "0.0.3", "0.0.4", "0.0.5", "1.0.1", "0.1.1"] {
@@ -600,10 +641,11 @@ pub fn gen(thorough: bool, seed: u64, out: &mut impl Write) {
       let mk = if r.chance(1, 2) { 0 } else { r.below(32) as u32 };
       let ex = r.chance(1, 4);
       match r.below(10) {
-        0..=3 => ops.push(format!("gen:{}:{}:{}", r.pick(&scopes), r.pick(&["1", "2", "3", "~", "7", "X"]), mask2(mk, ex))),
+        0..=3 => ops.push(format!("gen:{}:{}:{}{}", r.pick(&scopes), r.pick(&["1", "2", "3", "~", "7", "X"]), mask2(mk, ex), r.below(9))),
         4..=5 => ops.push(format!("at:{}:0.0.{}:{}", r.pick(&["F", "H"]), 1 + r.below(3), r.below(5))),
         6 => ops.push(format!("dt:F:0.0.{}:{}", 1 + r.below(3), r.below(5))),
-        _ => ops.push(format!("purge:0.0.{}:{}", 1 + r.below(3), mask2(mk, ex))),
+        7 => ops.push(format!("purge:0.{}.{}:{}{}", r.below(3), 1 + r.below(3), mask2(mk, ex), r.below(9))),
+        _ => ops.push(format!("purge:0.0.{}:{}{}", 1 + r.below(3), mask2(mk, ex), r.below(9))),
       }
       ops.push("S".into());
     }
